@@ -431,8 +431,12 @@ TRIGGERS = {
 
 
 def run_replay(prop, path, report):
-    with open(path) as handle:
-        body = json.load(handle)
+    try:
+        with open(path) as handle:
+            body = json.load(handle)
+    except (OSError, ValueError) as error:
+        report.harness(f"cannot read replay file {path}: {error}")
+        return report.exit_code()
     plan = body["plan"]
     violation = {"property": body["property"], "oracle": body["oracle"], "signature": body["signature"]}
     ok, result = reproduces(plan, violation)
